@@ -36,3 +36,8 @@ contract(F, "lemma_union_link", props=["C10"], lemma=True,
          ensures=["r[0] == 0", "forall(lambda j: implies(1 <= j and j <= idx, r[j] == 0))",
                   "forall(lambda j: implies(idx < j and j < len(r), r[j] == 0))"],
          notes="links Complement's discipline (every child at n) to ReverseRule.shifts() of a DisjointUnionStrategy rule")
+
+contract(F, "lemma_sum_pointwise", props=["C10"], lemma=True,
+         params={"a": Seq(Int), "b": Seq(Int)},
+         requires=["len(a) == len(b)", "forall(lambda i: implies(0 <= i and i < len(a), a[i] == b[i]))"],
+         ensures=["sum(a) == sum(b)"], decreases="len(a)")
